@@ -361,7 +361,16 @@ META:
         elif output_format == "yaml":
             # Convert filtered AST to dictionary, then serialize as YAML
             data = _ast_to_dict(result.filtered_doc)
-            output = yaml.dump(data, allow_unicode=True, sort_keys=False, default_flow_style=False)
+            try:
+                output = yaml.dump(data, allow_unicode=True, sort_keys=False, default_flow_style=False)
+            except RecursionError:
+                # PyYAML recurses per nesting level and gives up long before the reader does
+                return {
+                    "output": "// Eject error: document nesting is too deep for YAML output",
+                    "lossy": False,
+                    "fields_omitted": [],
+                    "validation_status": "UNVALIDATED",  # I5: Explicit bypass
+                }
             return {
                 "output": output,
                 "lossy": result.lossy,
